@@ -410,14 +410,14 @@ def C07():
 
 
 def C09():
-    from contracts.attributes import Iloc, ToList, UpdateCell, EncodeRows, LEMMAS
+    from contracts.attributes import Iloc, ToList, UpdateCell, EncodeRows, ToNestedList, LEMMAS
     from contracts.renderer import RenderBody
     from contracts.processor import PaginationBorders
     from contracts.emitters import CellAsRtf, BorderAsRtf, TextFormatting, ParagraphFormatting
     from contracts import replayers as R
     from contracts.replay_docs import replayer as D
     return Property(
-        "C09", units=[ContractUnit(Iloc()), ContractUnit(ToList()), ContractUnit(UpdateCell()), ContractUnit(EncodeRows()), ContractUnit(RenderBody()),
+        "C09", units=[ContractUnit(Iloc()), ContractUnit(ToList()), ContractUnit(UpdateCell()), ContractUnit(ToNestedList()), ContractUnit(EncodeRows()), ContractUnit(RenderBody()),
                       ContractUnit(PaginationBorders()), ContractUnit(CellAsRtf()), ContractUnit(BorderAsRtf()), ContractUnit(TextFormatting()),
                       ContractUnit(ParagraphFormatting()), _prepare_unit(), _section_unit()] + LEMMAS + _strategy_units(),
         level="proof",
